@@ -145,6 +145,17 @@ def py_erasure_diff(before, after):
     return sites, None
 
 
+MAX_PER_SIGNATURE = 5
+
+
+def report(run, obj, signature, no_input=False):
+    """run.violation, at most MAX_PER_SIGNATURE replays per signature (the rest is counted)"""
+    c = run.cov.setdefault("alarms_by_signature", {})
+    c[signature] = c.get(signature, 0) + 1
+    if c[signature] <= MAX_PER_SIGNATURE:
+        run.violation(obj, signature=signature, no_input=no_input)
+
+
 def canon_sites(sites):
     return sorted(json.dumps(s) for s in sites)
 
@@ -387,33 +398,78 @@ def make_specs(run, n, langs=LANGS, stages=("gen", "erase"), cap=60, base=None):
     return specs
 
 
+def _stream_worker(specs, counter, lock, outdir):
+    import pickle
+    pipeline._worker_init()
+    while True:
+        with lock:
+            i = counter.value
+            counter.value += 1
+        if i >= len(specs):
+            return
+        try:
+            r = pipeline.run_one(specs[i])
+        except BaseException as e:  # noqa: BLE001  (reported as data; the worker goes on)
+            r = {"spec": specs[i], "stages": {}, "exception": {"type": "worker:" + type(e).__name__, "msg": str(e)[:300]}}
+        tmp = os.path.join(outdir, "%d.tmp" % i)
+        with open(tmp, "wb") as f:
+            pickle.dump(r, f, protocol=4)
+        os.rename(tmp, os.path.join(outdir, "%d.pkl" % i))
+
+
 def stream_results(run, specs, budget_s, workers=None):
-    """the real pipeline in a pool of forked workers; results are yielded in the order of `specs`
-    as they become available, until the wall-clock budget is used (the rest is counted)"""
+    """the real pipeline in forked worker processes; results are yielded as they arrive (a slow
+    program does not hold back the others) until the wall-clock budget is used; the rest is
+    counted.  Results travel through files and the workers are killed at the deadline: no pipe
+    can block, whatever a worker is doing."""
     import multiprocessing as mp
+    import pickle
+    import signal
     t0 = time.time()
     if len(specs) <= 2:
         for sp in specs:
             yield pipeline.run_one(sp)
         return
-    workers = workers or min(12, max(1, (os.cpu_count() or 2) - 4))
+    workers = workers or min(12, max(1, (os.cpu_count() or 2) - 4), len(specs))
     ctx = mp.get_context("fork")   # spawn would re-import the main module in every worker
-    pool = ctx.Pool(workers, initializer=pipeline._worker_init, maxtasksperchild=50)
+    outdir = tempfile.mkdtemp(prefix="c03pipe_")
+    counter, lock = ctx.Value("i", 0), ctx.Lock()
+    procs = [ctx.Process(target=_stream_worker, args=(specs, counter, lock, outdir), daemon=True)
+             for _ in range(workers)]
+    for p in procs:
+        p.start()
+    seen, n = set(), 0
     try:
-        it = pool.imap(pipeline.run_one, specs, chunksize=1)
-        for i in range(len(specs)):
-            left = budget_s - (time.time() - t0)
-            try:
-                if left <= 0:
-                    raise mp.TimeoutError()
-                r = it.next(timeout=left)
-            except mp.TimeoutError:
-                run.cov["programs_skipped_for_budget"] = len(specs) - i
+        while n < len(specs):
+            new = sorted(int(f[:-4]) for f in os.listdir(outdir) if f.endswith(".pkl") and int(f[:-4]) not in seen)
+            for i in new:
+                seen.add(i)
+                path = os.path.join(outdir, "%d.pkl" % i)
+                with open(path, "rb") as f:
+                    r = pickle.load(f)
+                os.unlink(path)
+                n += 1
+                yield r
+            if n >= len(specs):
                 break
-            yield r
+            if time.time() - t0 > budget_s:
+                run.cov["programs_skipped_for_budget"] = len(specs) - n
+                break
+            if not new:
+                if not any(p.is_alive() for p in procs):
+                    if not any(f.endswith(".pkl") for f in os.listdir(outdir)):
+                        raise common.HarnessError("pipeline workers died with %d of %d results" % (n, len(specs)))
+                time.sleep(0.2)
     finally:
-        pool.terminate()
-        pool.join()
+        for p in procs:
+            if p.is_alive():
+                try:
+                    os.kill(p.pid, signal.SIGKILL)
+                except OSError:
+                    pass
+        for p in procs:
+            p.join(timeout=10)
+        shutil.rmtree(outdir, ignore_errors=True)
 
 
 def spec_key(spec):
@@ -493,9 +549,9 @@ def judge_graphs(run, r, fns, meta, reqs, answers):
                 obj = dict(where, what="pick", impl=impl_pick, model=model_pick, reference=ref_pick)
                 if ref_pick == impl_pick:
                     run.broken.append({"obligation": "correspondence mut.pick", "detail": obj})
-                    run.violation(obj, signature="C03:model-disagrees:pick", no_input=True)
+                    report(run, obj, signature="C03:model-disagrees:pick", no_input=True)
                 else:
-                    run.violation(obj, signature="C03:pick:not-first-feasible-largest-first")
+                    report(run, obj, signature="C03:pick:not-first-feasible-largest-first")
 
 
 def nodes_kind(fn, n):
@@ -525,11 +581,11 @@ def judge(run, where, phase, comb, impl, model, ref, fn):
                kinds=[fn["nodes"][n]["k"] for n in comb] if comb else None)
     if impl != ref:
         # the implementation's answer contradicts the declarative criterion
-        run.violation(obj, signature="C03:feasible:impl-vs-reachability-criterion:%s" % phase)
+        report(run, obj, signature="C03:feasible:impl-vs-reachability-criterion:%s" % phase)
     if impl != model:
         run.broken.append({"obligation": "correspondence mut.feasible", "detail": obj})
         if impl == ref:
-            run.violation(obj, signature="C03:model-disagrees:feasible", no_input=True)
+            report(run, obj, signature="C03:model-disagrees:feasible", no_input=True)
 
 
 def usable(r):
@@ -552,29 +608,29 @@ def judge_diff(run, r, a):
             run.tally("sites", k)
         run.count({"lang": spec["lang"], "sites": len(kinds), "kinds": sorted(set(kinds))}, nontrivial=bool(kinds))
         if any(k not in ("varType", "retType", "newInfer", "callInfer") for k in kinds):
-            run.violation(dict(where, model=m), signature="C03:diff:site-of-unexpected-kind")
+            report(run, dict(where, model=m), signature="C03:diff:site-of-unexpected-kind")
         if psites is None or canon_sites(psites) != canon_sites(m["sites"]):
             obj = dict(where, model=m, reference={"sites": psites, "bad": pbad})
             run.broken.append({"obligation": "erasureDiff vs by-value walk", "detail": obj})
-            run.violation(obj, signature="C03:model-disagrees:erasure_diff", no_input=True)
+            report(run, obj, signature="C03:model-disagrees:erasure_diff", no_input=True)
         fns = r.get("plugins", {}).get("plugin_tda", {}).get("erase", {}).get("functions", [])
         eff = sum(len(f["effect"]) for f in fns)
         if "cutoff" not in r and eff != len(kinds):
             run.tally("effect_vs_sites", "differs")
             obj = dict(where, sites=len(kinds), applied_effects=eff)
-            run.violation(obj, signature="C03:diff:sites-differ-from-applied-combinations")
+            report(run, obj, signature="C03:diff:sites-differ-from-applied-combinations")
         else:
             run.tally("effect_vs_sites", "equal")
         if er.get("is_transformed") is False and kinds:
-            run.violation(dict(where, note="is_transformed False but program changed"),
+            report(run, dict(where, note="is_transformed False but program changed"),
                           signature="C03:diff:changed-without-is_transformed")
     else:
         obj = dict(where, model=m, reference={"sites": psites, "bad": pbad})
         if psites is None:
-            run.violation(obj, signature="C03:diff:not-an-erasure")
+            report(run, obj, signature="C03:diff:not-an-erasure")
         else:
             run.broken.append({"obligation": "erasureDiff vs by-value walk", "detail": obj})
-            run.violation(obj, signature="C03:model-disagrees:erasure_diff", no_input=True)
+            report(run, obj, signature="C03:model-disagrees:erasure_diff", no_input=True)
 
 
 def judge_javac(run, r, jres, sites=None):
@@ -587,7 +643,7 @@ def judge_javac(run, r, jres, sites=None):
     run.count({"javac": [rc_g == 0, rc_e == 0], "changed": g != e, "spec": spec_key(r["spec"])}, nontrivial=g != e)
     if rc_g == 0 and rc_e != 0:
         sig = erased_java_shape(g, e, out_e, r["stages"]["gen"]["export"], sites)
-        run.violation({"spec": spec_key(r["spec"]), "what": "erased Java program rejected by javac",
+        report(run, {"spec": spec_key(r["spec"]), "what": "erased Java program rejected by javac",
                        "javac": java_diag_lines(out_e)[:5], "javac_tail": out_e[-1500:]}, signature="C03:" + sig)
 
 
@@ -602,7 +658,7 @@ def judge_checker(run, r, a_e, a_g):
     ok_e, ok_g = wt_ok(a_e), wt_ok(a_g)
     run.tally("check.wt", "%s/%s" % ("orig-ok" if ok_g else "orig-rejected", "erased-ok" if ok_e else "erased-rejected"))
     if ok_g and not ok_e:
-        run.violation({"spec": spec_key(r["spec"]), "what": "erased program rejected by check.wt (inference mode)",
+        report(run, {"spec": spec_key(r["spec"]), "what": "erased program rejected by check.wt (inference mode)",
                        "answer": a_e["r"]}, signature="C03:%s:erased:check.wt-rejects" % r["spec"]["lang"])
 
 
@@ -616,7 +672,7 @@ def small_streams(run):
     diffs = common.compare_stream(run, reqs, impl, "combinations order")
     for d in diffs:
         run.broken.append({"obligation": "correspondence mut.combos", "detail": d[1]})
-        run.violation({"what": "allCombos differs from itertools", "request": d[1]},
+        report(run, {"what": "allCombos differs from itertools", "request": d[1]},
                       signature="C03:model-disagrees:combos", no_input=True)
 
 
@@ -737,6 +793,8 @@ def run_all(run, specs, budget_s, threads=3, batch_size=8, batch_wait=12):
         drain(0)
     run.cov["programs"] = n
     run.log("%d programs checked at %.0fs" % (n, time.time() - t0))
+    if not run.cov.get("pipeline", {}).get("ok"):
+        raise common.HarnessError("no program went through the pipeline within the budget (%d results)" % n)
 
 
 def check(run):
@@ -749,7 +807,7 @@ def check(run):
     specs = []
     if os.path.isdir(corpus):
         for f in sorted(os.listdir(corpus)):
-            specs.append(json.load(open(os.path.join(corpus, f)))["spec"])
+            specs.append(dict(json.load(open(os.path.join(corpus, f)))["spec"], cap=40 if run.tier == "quick" else 60))
     langs = tuple(os.environ.get("C03_LANGS", ",".join(LANGS)).split(","))
     base = int(os.environ["C03_BASE"]) if "C03_BASE" in os.environ else None   # calibration: seeds base, base+1, …
     if run.tier == "quick":
